@@ -23,7 +23,10 @@ sys.setrecursionlimit(200000)
 I32MAX = 2**31 - 1
 LOGICALS = [10000, 20000, 30000, 40000, 60000, 110000, 120000, 130000, 140000, 150000,       # parameterless
             50000 + 2 * 100 + 9, 50000 + 0 * 100 + 38, 100000 + 8 * 100 + 1, 100000 + 64 * 100 + 0,
-            100000 + 32 * 100 + 1, 70000 + 1 * 100 + 1, 70000 + 0 * 100 + 3, 80000 + 1 * 100 + 2, 80000 + 0 * 100 + 1]
+            100000 + 32 * 100 + 1, 70000 + 1 * 100 + 1, 70000 + 0 * 100 + 3, 80000 + 1 * 100 + 2, 80000 + 0 * 100 + 1,
+            80000 + 0 * 100 + 3, 80000 + 1 * 100 + 3, 70000 + 1 * 100 + 2]
+# members with parameters: also written with additional unknown fields inside their struct (must be skipped, parameters kept)
+PARAM_LOGICALS = [c for c in LOGICALS if c // 10000 in (5, 7, 8, 10)]
 LOGICAL_NAMES = {1: "STRING", 2: "MAP", 3: "LIST", 4: "ENUM", 6: "DATE", 11: "NULL", 12: "JSON", 13: "BSON",
                  14: "UUID", 15: "FLOAT16"}
 
@@ -35,6 +38,8 @@ RAW_LOGICALS = [(fid, v) for fid in (9, 16, 17, 18, 19, 20) for v in (0, 1, 2)]
 
 def logical_tuple(code):
     if isinstance(code, tuple):
+        if code[0] == "EXTRA":
+            return ("EXTRA",) + logical_tuple(code[1])
         return ("RAW", code[0], code[1])
     fid, a, b = code // 10000, (code // 100) % 100, code % 100
     if fid in LOGICAL_NAMES:
@@ -90,6 +95,9 @@ def leaf_payload(rng):
     lg = rng.choice(LOGICALS) if rng.random() < 0.3 else None
     if rng.random() < 0.08:
         lg = (0, rng.choice(RAW_LOGICALS))       # exposed as code 0, written as the raw union member
+    elif rng.random() < 0.06:
+        c = rng.choice(PARAM_LOGICALS)
+        lg = (c, ("EXTRA", c))                   # exposed as c, written with extra unknown fields in its struct
     return ty, tlen, lg
 
 
@@ -197,7 +205,8 @@ def file_of(els, leaves=None):
             type_length=e["tlen"] if e.get("tlen_present", e["tlen"] != 0) else None,
             repetition=e["rep"] if e["hasrep"] else None,
             num_children=e["nc"] if e.get("nc_present", e["nc"] != 0) else None,
-            logical=None if e["logical"] is None else logical_tuple(e.get("lwire") or e["logical"])))
+            logical=None if e["logical"] is None else logical_tuple(e.get("lwire") or e["logical"]),
+            **(e.get("extras") or {})))
     rgs = []
     if leaves is not None:
         rgs = [pq.row_group([pq.column_chunk(l[3], [name_str(l[2])], 0) for l in leaves], 0)]
@@ -216,6 +225,12 @@ def tree_case(root_rep, forest, rng, with_rg, extra_finds=()):
         if not e["hastype"] and rng.random() < 0.12:
             c = rng.choice([20000, 30000, (0, rng.choice(RAW_LOGICALS)), (0, rng.choice(RAW_LOGICALS))])
             e["logical"], e["lwire"] = (c[0], c[1]) if isinstance(c, tuple) else (c, None)
+    # fields of SchemaElement no accessor exposes (converted_type, scale, precision, field_id) and a field from the future:
+    # parsed or skipped, the rest of the element and of the tree stays intact
+    for e in els:
+        if rng.random() < 0.15:
+            e["extras"] = dict(converted_type=rng.choice([None, 0, 5, 21]), scale=rng.choice([None, 2]), precision=rng.choice([None, 9]),
+                               field_id=rng.choice([None, 1, -7, 2**31 - 1]), unknown_field=rng.random() < 0.5)
     names = sorted({e["name"] for e in els})
     finds = names[:12] + [n for n in names if n >= 9000][:6] + dotted_finds(names, rng) + list(extra_finds)
     data = file_of(els, lv if with_rg else None)
